@@ -2,6 +2,7 @@
 import HtpModel.Lemmas.Conn
 import HtpModel.Lemmas.BufInv
 import HtpModel.Lemmas.OutInv
+import HtpModel.Lemmas.OwedOut
 
 namespace Htp.C10
 open Htp.Conn Htp.Gen
@@ -129,5 +130,21 @@ theorem C10_res_call_buffer_bounded (cfg : Cfg) (d : Bytes) (c : Conn) (hs : (d.
 example :
     let c : Conn := { outState := .line, out := { status := STREAM_DATA, tx := some 0 }, txs := [some { uid := 0 }] }
     outBufLen c ≤ (({} : Cfg).fieldLimitHard) ∧ outBufLen (resData {} (some (b!"HTTP/1.1 2")) 10 c).1 = 10 := by decide
+
+/-- **C10 (whole data call, from a state invariant)**: the 'no negative amount owed in any pass' hypothesis of the two whole-call theorems is
+    discharged (`Lemmas/Owed.lean`, `Lemmas/OwedOut.lean`): with the counted body states owing bytes when the call starts, a call of either
+    direction returns with the line buffer within the hard limit AND with the counted body states owing bytes again. For the response direction
+    nothing else is assumed; for the request direction the one outside fact is `ClAtDecision` (a non-negative Content-Length at the framing
+    decision). -/
+theorem C10_res_call_buffer_bounded_inv (cfg : Cfg) (d : Bytes) (c : Conn) (hs : (d.length : Int) < 18446744073709551616)
+    (hb : outBufLen c ≤ cfg.fieldLimitHard) (h0 : OwedPosO c) :
+    outBufLen (resData cfg (some d) d.length c).1 ≤ cfg.fieldLimitHard ∧ OwedPosO (resData cfg (some d) d.length c).1 :=
+  resData_invariant cfg d c hs hb h0
+
+theorem C10_req_call_buffer_bounded_inv (cfg : Cfg) (d : Bytes) (c : Conn) (hs : (d.length : Int) < 18446744073709551616)
+    (hb : inBufLen c ≤ cfg.fieldLimitHard) (h0 : OwedPos c)
+    (hcl : ClAtDecision cfg (reqWakeOther (reqStoreChunk (some d) d.length c))) :
+    inBufLen (reqData cfg (some d) d.length c).1 ≤ cfg.fieldLimitHard ∧ OwedPos (reqData cfg (some d) d.length c).1 :=
+  reqData_invariant cfg d c hs hb h0 hcl
 
 end Htp.C10
